@@ -5,12 +5,15 @@
    Part 2: what the uncached functions depend on: the orders of the REQUIRED specs of the key
            and the stores (adapters, subscribers, extendors) of the registries of the order.
    Part 3: re-basing a specification changes the order of its descendants only.
-   Part 4: systems: invariant CacheValid, preserved by every operation (both flavours).
-   Part 5: the theorems (state form, erased-history form). *)
+   Part 4: systems: invariant CacheValid, preserved by every operation of a MIXED system (verifying
+           registries over invalidating ones), on top of the chain invariant MInv of
+           Proofs/RegChainMixed.v (property C06).
+   Part 5: the theorems (state form, erased-history form) for mixed histories; the single-flavour
+           statements are corollaries. *)
 From Coq Require Import List Arith Bool Lia.
 Import ListNotations.
 From ZI Require Import Model.Ro Model.Adapter Model.Lookup Model.RegSys Spec.RegChain Model.CacheSys
-  Proofs.RegChain.
+  Proofs.RegChain Proofs.RegChainMixed.
 
 Ltac nlia := unfold node, spec, name in *; lia.
 
@@ -531,22 +534,6 @@ Proof.
   reflexivity.
 Qed.
 
-(* what _verify leaves behind, for either flavour *)
-Lemma verify_facts W fl s r : Inv fl s -> CV W s -> r < length s ->
-  length (verify s r) = length s /\
-  (forall i, rs_reg (get (verify s r) i) = rs_reg (get s i)) /\
-  (forall i, i <> r -> get (verify s r) i = get s i) /\
-  ents W (verify s r) r (rs_caches (get (verify s r) r)).
-Proof.
-  intros I C Lr. destruct fl.
-  - rewrite verify_push by apply I. split; [|split; [|split]]; auto. apply C. unfold valid_snap.
-    destruct I as (Al & _). rewrite (Al r). exact Logic.I.
-  - destruct (verify_ver s r I Lr) as (_ & L & _ & Rg & _ & Ot & Ne & Eq).
-    split; [|split; [|split]]; auto.
-    destruct (list_eq_dec Nat.eq_dec (gens s (rs_vro (get s r))) (rs_vgen (get s r))) as [E|N].
-    + rewrite (Eq E). apply C. unfold valid_snap. destruct I as (Al & _). rewrite (Al r Lr). exact E.
-    + unfold ents. rewrite (Ne N). apply ent_ok_empty.
-Qed.
 
 Lemma gens_same_regs s s' l : (forall i, rs_reg (get s' i) = rs_reg (get s i)) -> gens s' l = gens s l.
 Proof. intros H. apply gens_ext. intros i _. unfold gen_of. rewrite H. reflexivity. Qed.
@@ -566,11 +553,28 @@ Proof.
   - rewrite (ro_regs_same_regs s s'); auto. rewrite E. reflexivity.
 Qed.
 
-Lemma CV_with_lookup W fl {A} s r (f : _ -> _ -> _ -> caches -> caches * A) :
-  Inv fl s -> CV W s -> r < length s -> transparent_f f -> CV W (fst (with_lookup W s r f)).
+(* ---- what _verify leaves behind (registries of either flavour in one system) *)
+Lemma m_verify_facts W s r : MInv s -> CV W s -> r < length s ->
+  length (verify s r) = length s /\
+  (forall i, rs_reg (get (verify s r) i) = rs_reg (get s i)) /\
+  (forall i, i <> r -> get (verify s r) i = get s i) /\
+  ents W (verify s r) r (rs_caches (get (verify s r) r)).
+Proof.
+  intros M C Lr. destruct (fl s r) eqn:F.
+  - rewrite verify_push by apply F. split; [|split; [|split]]; auto. apply C. unfold valid_snap.
+    unfold fl in F. rewrite F. exact Logic.I.
+  - destruct (m_verify_ver s r M Lr F) as (_ & L & _ & _ & Rg & _ & Ot & Ne & Eq).
+    split; [|split; [|split]]; auto.
+    destruct (list_eq_dec Nat.eq_dec (gens s (rs_vro (get s r))) (rs_vgen (get s r))) as [E|N].
+    + rewrite (Eq E). apply C. unfold valid_snap. unfold fl in F. rewrite F. exact E.
+    + unfold ents. rewrite (Ne N). apply ent_ok_empty.
+Qed.
+
+Lemma CV_with_lookup W {A} s r (f : _ -> _ -> _ -> caches -> caches * A) :
+  MInv s -> CV W s -> r < length s -> transparent_f f -> CV W (fst (with_lookup W s r f)).
 Proof.
   intros I C Lr T. rewrite with_lookup_fst'.
-  destruct (verify_facts W fl s r I C Lr) as (L1 & Rg & Ot & E1).
+  destruct (m_verify_facts W s r I C Lr) as (L1 & Rg & Ot & E1).
   set (s1 := verify s r) in *.
   set (c' := fst (f _ _ _ _)).
   assert (Rg' : forall j, rs_reg (get (upd s1 r (fun x => set_caches x c')) j) = rs_reg (get s1 j)).
@@ -586,399 +590,368 @@ Proof.
 Qed.
 
 (* the answer of an entry point = its answer with empty caches over the current chain *)
-Lemma with_lookup_answer W fl {A} s r (f : _ -> _ -> _ -> caches -> caches * A) :
-  Inv fl s -> CV W s -> r < length s -> transparent_f f ->
+Lemma with_lookup_answer W {A} s r (f : _ -> _ -> _ -> caches -> caches * A) :
+  MInv s -> CV W s -> r < length s -> transparent_f f ->
   snd (with_lookup W s r f) =
   snd (f (uncached_lookup W (chain_regs s r)) (uncached_lookupAll W (chain_regs s r))
          (uncached_subscriptions W (chain_regs s r)) empty_caches).
 Proof.
   intros I C Lr T. rewrite with_lookup_snd.
-  destruct (verify_facts W fl s r I C Lr) as (_ & _ & _ & E1). unfold ents in E1.
-  rewrite (chain_after_verify fl s r I Lr) in *.
+  destruct (m_verify_facts W s r I C Lr) as (_ & _ & _ & E1). unfold ents in E1.
+  rewrite (m_chain_after_verify s r I Lr) in *.
   apply T. exact E1.
 Qed.
 
-(* ---- push flavour: changed() fan-out only clears caches and bumps generations *)
-Definition soft (a b : sys) : Prop :=
-  forall i, store (rs_reg (get b i)) = store (rs_reg (get a i)) /\
-            (P_c b i \/ rs_caches (get b i) = rs_caches (get a i)).
+(* ---- what the mutating primitives of Model/RegSys.v leave alone, whatever the flavours:
+   __bases__, flavour and storage (up to the generation) of every registry; and a cache is either
+   emptied or untouched *)
+Definition fr1 (x y : rstate) : Prop :=
+  rs_bases y = rs_bases x /\ rs_flavour y = rs_flavour x /\ store (rs_reg y) = store (rs_reg x) /\
+  (rs_caches y = empty_caches \/ rs_caches y = rs_caches x).
 
-Lemma soft_refl s : soft s s.
-Proof. intros i. split; auto. Qed.
+Definition frame (a b : sys) : Prop := length b = length a /\ forall i, fr1 (get a i) (get b i).
 
-Lemma soft_trans a b c : soft a b -> soft b c -> soft a c.
+Lemma fr1_refl x : fr1 x x.
+Proof. repeat split; auto. Qed.
+
+Lemma fr1_trans x y z : fr1 x y -> fr1 y z -> fr1 x z.
 Proof.
-  intros H1 H2 i. destruct (H1 i) as (S1 & C1). destruct (H2 i) as (S2 & C2). split; [congruence|].
-  destruct C2 as [C2|C2]; auto. destruct C1 as [C1|C1]; [left; unfold P_c in *; congruence|right; congruence].
+  intros (A & B & C & D) (A' & B' & C' & D'). split; [congruence|]. split; [congruence|]. split; [congruence|].
+  destruct D' as [D'|D']; auto. destruct D as [D|D]; [left|right]; congruence.
 Qed.
 
-Lemma lookup_changed_push_soft b s r : allPush s -> soft s (lookup_changed b s r).
+Lemma frame_refl s : frame s s.
+Proof. split; auto. intros; apply fr1_refl. Qed.
+
+Lemma frame_trans a b c : frame a b -> frame b c -> frame a c.
+Proof. intros (L & H) (L' & H'). split; [congruence|]. intros i. eapply fr1_trans; eauto. Qed.
+
+Lemma frame_set_pres s r x : fr1 (get s r) x -> frame s (set s r x).
 Proof.
-  intros A i. rewrite lookup_changed_push by apply A. unfold P_c. rewrite get_upd.
-  destruct (Nat.eqb i r && Nat.ltb r (length s)) eqn:E; auto.
-  apply andb_true_iff in E. destruct E as (E & _). apply Nat.eqb_eq in E. subst. cbn. auto.
+  intros Hx. split; [apply set_length|]. intros i. rewrite get_set.
+  destruct (Nat.eqb i r && Nat.ltb r (length s)) eqn:E; [|apply fr1_refl].
+  apply andb_true_iff in E. destruct E as (E & _). apply Nat.eqb_eq in E. subst. auto.
 Qed.
 
-Lemma bump_soft s r : soft s (upd s r bump).
+Lemma frame_upd_pres s r h : (forall x, fr1 x (h x)) -> frame s (upd s r h).
+Proof. intros Hh. unfold upd. apply frame_set_pres. apply Hh. Qed.
+
+Lemma frame_fold_pres {B} (F : sys -> B -> sys) l : (forall a x, frame a (F a x)) ->
+  forall s, frame s (fold_left F l s).
 Proof.
-  intros i. rewrite get_upd. destruct (Nat.eqb i r && Nat.ltb r (length s)) eqn:E; auto.
-  apply andb_true_iff in E. destruct E as (E & _). apply Nat.eqb_eq in E. subst. cbn. auto.
+  intros HF. induction l as [|x l IH]; intros s; cbn [fold_left]; [apply frame_refl|].
+  eapply frame_trans; [apply HF|apply IH].
 Qed.
 
-Lemma visit_ch_soft s r : allPush s -> soft s (visit_ch s r).
+Lemma refresh_ro_frame : forall f s r, frame s (refresh_ro f s r).
 Proof.
-  intros A. unfold visit_ch. eapply soft_trans; [apply bump_soft|].
-  apply lookup_changed_push_soft. eapply skel_allPush; eauto. apply bump_skel.
+  induction f as [|f IH]; intros s r; cbn [refresh_ro].
+  - apply frame_set_pres. repeat split; auto.
+  - set (s1 := set s r _). assert (E1 : frame s s1) by (apply frame_set_pres; repeat split; auto).
+    destruct (rs_flavour (get s r)); auto.
+    eapply frame_trans; [exact E1|]. apply frame_fold_pres. intros; apply IH.
 Qed.
 
-Lemma after_bump_soft s r : allPush s -> soft s (after_bump s r).
+Lemma lookup_changed_frame b s r : frame s (lookup_changed b s r).
 Proof.
-  intros A. rewrite after_bump_push; auto.
-  eapply soft_trans; [apply (lookup_changed_push_soft false s r A)|].
-  apply (trav_fold_pres visit_ch allPush); auto using soft_refl.
-  - intros; apply visit_ch_allPush; auto.
-  - intros; eapply soft_trans; eauto.
-  - intros; apply visit_ch_soft; auto.
-  - eapply skel_allPush; eauto. apply lookup_changed_push_skel; auto.
+  unfold lookup_changed. destruct (rs_flavour (get s r)) eqn:F.
+  - apply frame_set_pres. repeat split; cbn; auto.
+  - eapply frame_trans; [apply (refresh_ro_frame 0 s r)|].
+    set (s0 := refresh_ro 0 s r).
+    assert (F0 : rs_flavour (get s0 r) = Verifying).
+    { destruct (refresh_ro_frame 0 s r) as (_ & H). destruct (H r) as (_ & Hf & _).
+      unfold s0. rewrite Hf. auto. }
+    apply frame_set_pres. repeat split; cbn; auto.
 Qed.
 
-Lemma push_valid_snap s i : allPush s -> valid_snap s i.
-Proof. intros A. unfold valid_snap. rewrite (A i). exact I. Qed.
+Lemma bump_fr1 x : fr1 x (bump x).
+Proof. repeat split; cbn; auto. Qed.
 
-(* [s0]: a good state; [s4]: s0 after the storage / __bases__ of registry r changed (nothing else
-   did, caches untouched); then changed(r) runs *)
-Lemma CV_after_bump_push W s0 s4 r :
-  PInv s0 -> CV W s0 -> PInv s4 -> length s0 <= length s4 -> r < length s4 ->
-  (forall i, rs_caches (get s4 i) = rs_caches (get s0 i)) ->
-  (forall j, j <> r -> store (rs_reg (get s4 j)) = store (rs_reg (get s0 j))) ->
-  (forall y, y <> r -> Bs s4 y = Bs s0 y) ->
-  CV W (after_bump s4 r).
+Lemma sub_changed_frame : forall f s r, frame s (sub_changed f s r).
 Proof.
-  intros P0 C P4 L Lr Hc Hs Hb i.
-  destruct P4 as (A4 & R4 & S4 & C4). destruct P0 as (A0 & R0 & S0 & C0).
-  pose proof (after_bump_soft s4 r A4 i) as (St & Ca).
-  destruct (Reach_dec (Bs s4) r R4 i) as [Y|N].
-  { apply cv_empty. apply after_bump_empties; auto. }
-  destruct Ca as [Ca|Ca]; [apply cv_empty; exact Ca|].
-  destruct (Nat.lt_ge_cases i (length s0)) as [Li|Li].
-  2:{ apply cv_empty. rewrite Ca, Hc. apply get_oob_caches; auto. }
-  assert (Ni : i <> r) by (intros ->; apply N, Reach_refl).
-  destruct (after_bump_skel s4 r A4) as ((L' & G') & Ro').
-  assert (F : fresh_ro s4 i = fresh_ro s0 i).
-  { apply fresh_ro_frame; auto; try lia. apply Reach_avoid with (r := r); auto. }
-  apply (cv_frame W W s0 _ i); auto.
-  - intros _. apply push_valid_snap; auto.
-  - rewrite Ca. apply Hc.
-  - apply ro_regs_store_ext.
-    + rewrite <- Ro', C4, C0, F; auto; lia.
-    + intros j Hj. rewrite C0 in Hj by auto. rewrite <- F in Hj.
-      apply (fresh_ro_mem s4 i j R4) in Hj; [|lia].
-      assert (j <> r) by (intros ->; auto).
-      destruct (after_bump_soft s4 r A4 j) as (-> & _). auto.
+  induction f as [|f IH]; intros s r; cbn [sub_changed].
+  - eapply frame_trans; [apply (frame_upd_pres s r bump bump_fr1)|apply lookup_changed_frame].
+  - set (s1 := lookup_changed false (upd s r bump) r).
+    assert (E1 : frame s s1).
+    { eapply frame_trans; [apply (frame_upd_pres s r bump bump_fr1)|apply lookup_changed_frame]. }
+    destruct (rs_flavour (get s1 r)); auto.
+    eapply frame_trans; [exact E1|]. apply frame_fold_pres. intros; apply IH.
 Qed.
 
-(* the storage of registry b is replaced (a mutator, or rebuild()), then changed(b) runs *)
-Lemma CV_setreg_push W s b g' : PInv s -> CV W s -> b < length s ->
-  CV W (after_bump (set s b (mkRS g' (rs_caches (get s b)) (rs_bases (get s b)) (rs_ro (get s b))
-                                  (rs_subs (get s b)) (rs_vro (get s b)) (rs_vgen (get s b))
-                                  (rs_flavour (get s b)))) b).
+Lemma after_bump_frame s r : frame s (after_bump s r).
 Proof.
-  intros P C Lb.
-  set (s1 := set s b _).
-  assert (K : skel_eq s s1) by (exact (set_reg_skel s b g')).
-  apply (CV_after_bump_push W s s1 b); auto.
-  - eapply PInv_skel; eauto.
-  - unfold s1. rewrite set_length. auto.
-  - unfold s1. rewrite set_length. auto.
-  - intros i. unfold s1. rewrite get_set. destruct (Nat.eqb i b && Nat.ltb b (length s)) eqn:E; auto.
-    apply andb_true_iff in E. destruct E as (E & _). apply Nat.eqb_eq in E. subst. reflexivity.
-  - intros j N. unfold s1. rewrite get_set_other; auto.
-  - intros y N. unfold Bs, s1. rewrite get_set_other; auto.
+  unfold after_bump. pose proof (lookup_changed_frame false s r) as E1.
+  destruct (rs_flavour (get (lookup_changed false s r) r)); auto.
+  eapply frame_trans; [exact E1|]. apply frame_fold_pres. intros; apply sub_changed_frame.
 Qed.
 
-Lemma CV_mutate_push W s b f : PInv s -> CV W s -> b < length s -> CV W (mutate s b f).
+(* _setBases: only the __bases__ of r change *)
+Lemma set_bases_fr s r bs :
+  length (set_bases s r bs) = length s /\
+  forall i, (i <> r -> rs_bases (get (set_bases s r bs) i) = rs_bases (get s i)) /\
+            rs_flavour (get (set_bases s r bs) i) = rs_flavour (get s i) /\
+            store (rs_reg (get (set_bases s r bs) i)) = store (rs_reg (get s i)) /\
+            (rs_caches (get (set_bases s r bs) i) = empty_caches \/
+             rs_caches (get (set_bases s r bs) i) = rs_caches (get s i)).
 Proof.
-  intros P C Lb. unfold mutate.
-  destruct (Nat.eqb (generation (f (rs_reg (get s b)))) (generation (rs_reg (get s b)))); auto.
-  apply CV_setreg_push; auto.
+  unfold set_bases.
+  set (s1 := match rs_flavour (get s r) with Push => _ | Verifying => s end).
+  assert (E1 : frame s s1).
+  { unfold s1. destruct (rs_flavour (get s r)); [|apply frame_refl].
+    eapply frame_trans;
+      [|apply (@frame_fold_pres nat); intros a x; destruct (mem x (rs_bases (get s r))); [apply frame_refl|];
+        apply frame_upd_pres; intros y; repeat split; cbn; auto].
+    apply (@frame_fold_pres nat). intros a x. destruct (mem x bs); [apply frame_refl|].
+    apply frame_upd_pres. intros y. repeat split; cbn; auto. }
+  set (s2 := upd s1 r _).
+  assert (E2 : frame s2 (after_bump (upd (refresh_ro (length s) s2 r) r bump) r)).
+  { eapply frame_trans; [apply refresh_ro_frame|].
+    eapply frame_trans; [apply (frame_upd_pres _ r bump bump_fr1)|apply after_bump_frame]. }
+  destruct E1 as (L1 & H1). destruct E2 as (L2 & H2).
+  assert (Ls2 : length s2 = length s1) by (unfold s2; apply upd_length).
+  split; [congruence|]. intros i.
+  destruct (H1 i) as (B1 & F1 & S1 & C1). destruct (H2 i) as (B2 & F2 & S2 & C2).
+  assert (G2 : (i <> r -> rs_bases (get s2 i) = rs_bases (get s1 i)) /\
+               rs_flavour (get s2 i) = rs_flavour (get s1 i) /\
+               rs_reg (get s2 i) = rs_reg (get s1 i) /\ rs_caches (get s2 i) = rs_caches (get s1 i)).
+  { unfold s2. rewrite get_upd. destruct (Nat.eqb i r && Nat.ltb r (length s1)) eqn:E.
+    - apply andb_true_iff in E. destruct E as (E & _). apply Nat.eqb_eq in E. subst. cbn.
+      repeat split; auto. congruence.
+    - repeat split; auto. }
+  destruct G2 as (Gb & Gf & Gr & Gc).
+  split; [intros N; rewrite B2, Gb, B1; auto|]. split; [congruence|]. split; [rewrite S2, Gr, S1; auto|].
+  destruct C2 as [C2|C2]; auto. rewrite C2, Gc. auto.
 Qed.
 
-(* ---- _setBases of a push registry: everything up to changed() leaves storages and caches alone *)
-Definition keeps (a b : sys) : Prop :=
-  forall i, rs_reg (get b i) = rs_reg (get a i) /\ rs_caches (get b i) = rs_caches (get a i).
-
-Lemma keeps_refl s : keeps s s.
-Proof. intros i. auto. Qed.
-
-Lemma keeps_trans a b c : keeps a b -> keeps b c -> keeps a c.
-Proof. intros H1 H2 i. destruct (H1 i), (H2 i). split; congruence. Qed.
-
-Lemma visit_ro_keeps_fields s r : keeps s (visit_ro s r).
+(* the storage of r is replaced, then changed(r) *)
+Lemma setreg_fr s r g' :
+  let s' := after_bump (set s r (mkRS g' (rs_caches (get s r)) (rs_bases (get s r)) (rs_ro (get s r))
+                                      (rs_subs (get s r)) (rs_vro (get s r)) (rs_vgen (get s r))
+                                      (rs_flavour (get s r)))) r in
+  length s' = length s /\
+  forall i, rs_bases (get s' i) = rs_bases (get s i) /\ rs_flavour (get s' i) = rs_flavour (get s i) /\
+            (i <> r -> store (rs_reg (get s' i)) = store (rs_reg (get s i))) /\
+            (rs_caches (get s' i) = empty_caches \/ rs_caches (get s' i) = rs_caches (get s i)).
 Proof.
-  intros i. unfold visit_ro. rewrite get_upd.
-  destruct (Nat.eqb i r && Nat.ltb r (length s)) eqn:E; auto.
-  apply andb_true_iff in E. destruct E as (E & _). apply Nat.eqb_eq in E. subst. cbn. auto.
+  set (s4 := set s r _). cbv zeta. destruct (after_bump_frame s4 r) as (L & H).
+  split; [rewrite L; apply set_length|]. intros i. destruct (H i) as (B & F & S & C).
+  assert (G : rs_bases (get s4 i) = rs_bases (get s i) /\ rs_flavour (get s4 i) = rs_flavour (get s i) /\
+              (i <> r -> get s4 i = get s i) /\ rs_caches (get s4 i) = rs_caches (get s i)).
+  { unfold s4. rewrite get_set. destruct (Nat.eqb i r && Nat.ltb r (length s)) eqn:E.
+    - apply andb_true_iff in E. destruct E as (E & _). apply Nat.eqb_eq in E. subst. cbn.
+      repeat split; auto. congruence.
+    - repeat split; auto. }
+  destruct G as (Gb & Gf & Go & Gc).
+  split; [congruence|]. split; [congruence|]. split; [intros N; rewrite S, (Go N); auto|].
+  destruct C as [C|C]; auto. rewrite C, Gc. auto.
 Qed.
 
-Lemma refresh_ro_keeps_fields f s r : allPush s -> keeps s (refresh_ro f s r).
+(* the registry an operation works on *)
+Definition op_target (s : sys) (o : rop) : nat :=
+  match o with
+  | ONewReg _ _ => length s
+  | OSetRegBases r _ | ORegister r _ _ _ _ | OUnregister r _ _ _ _ | OSubscribe r _ _ _
+  | OUnsubscribe r _ _ _ | ORebuild r => r
+  | _ => 0
+  end.
+
+Lemma mutate_fr s r f :
+  length (mutate s r f) = length s /\
+  forall i, rs_bases (get (mutate s r f) i) = rs_bases (get s i) /\
+            rs_flavour (get (mutate s r f) i) = rs_flavour (get s i) /\
+            (i <> r -> store (rs_reg (get (mutate s r f) i)) = store (rs_reg (get s i))) /\
+            (rs_caches (get (mutate s r f) i) = empty_caches \/
+             rs_caches (get (mutate s r f) i) = rs_caches (get s i)).
 Proof.
-  intros A. rewrite refresh_ro_trav; auto.
-  apply (trav_pres visit_ro (fun _ => True)); auto using keeps_refl.
-  - intros; eapply keeps_trans; eauto.
-  - intros; apply visit_ro_keeps_fields.
+  unfold mutate. destruct (Nat.eqb _ _); [split; auto; intros; repeat split; auto|].
+  apply (setreg_fr s r (f (rs_reg (get s r)))).
 Qed.
 
-Lemma set_bases_push_frame s r bs :
-  allPush s -> ranked (Bs s) -> subs_ok s -> ro_coherent_except s r ->
-  r < length s -> (forall b, In b bs -> b < r) ->
-  exists s4, set_bases s r bs = after_bump s4 r /\ PInv s4 /\ length s4 = length s /\
-             (forall i, rs_caches (get s4 i) = rs_caches (get s i)) /\
-             (forall i, store (rs_reg (get s4 i)) = store (rs_reg (get s i))) /\
-             (forall y, y <> r -> Bs s4 y = Bs s y).
+Lemma step_frame W call s o : is_mutation o = true ->
+  length s <= length (fst (step W call s o)) /\
+  forall i, (rs_caches (get (fst (step W call s o)) i) = empty_caches \/
+             rs_caches (get (fst (step W call s o)) i) = rs_caches (get s i)) /\
+            (i <> op_target s o ->
+             rs_bases (get (fst (step W call s o)) i) = rs_bases (get s i) /\
+             rs_flavour (get (fst (step W call s o)) i) = rs_flavour (get s i) /\
+             store (rs_reg (get (fst (step W call s o)) i)) = store (rs_reg (get s i))).
 Proof.
-  intros A R S0 C Lr Hbs. rewrite set_bases_push_eq by apply A. cbv zeta.
-  destruct (book_spec (rs_bases (get s r)) bs r s) as (O & B2 & B3 & B4).
-  set (sb := book (rs_bases (get s r)) s r bs) in *.
-  set (s2 := upd sb r (setb bs)).
-  assert (F : forall i, rs_bases (get s2 i) = (if Nat.eqb i r then bs else rs_bases (get s i)) /\
-                        rs_subs (get s2 i) = rs_subs (get sb i) /\
-                        rs_flavour (get s2 i) = rs_flavour (get s i) /\
-                        rs_ro (get s2 i) = rs_ro (get s i)) by (intros; apply s2_fields; auto).
-  assert (K2 : keeps s s2).
-  { intros i. unfold s2. destruct O as (LO & HO). rewrite get_upd.
-    destruct (Nat.eqb i r && Nat.ltb r (length sb)) eqn:E.
-    - apply andb_true_iff in E. destruct E as (E & _). apply Nat.eqb_eq in E. subst.
-      destruct (HO r) as (l & ->). cbn. auto.
-    - destruct (HO i) as (l & ->). cbn. auto. }
-  assert (L2 : length s2 = length s) by (unfold s2; rewrite upd_length; apply O).
-  assert (A2 : allPush s2) by (intros i; destruct (F i) as (_ & _ & -> & _); apply A).
-  assert (R2 : ranked (Bs s2)).
-  { intros y b. unfold Bs. destruct (F y) as (-> & _). destruct (Nat.eqb y r) eqn:E.
-    - apply Nat.eqb_eq in E. subst. auto.
-    - apply R. }
-  assert (S2 : subs_ok s2).
-  { split.
-    - intros i y. destruct (F i) as (_ & -> & _). intros Hy. rewrite L2.
-      destruct (B2 _ _ Hy) as [Hy'|(-> & Hi)]; [apply S0; auto|]. split; auto.
-    - intros x b. unfold Bs. destruct (F x) as (-> & _). destruct (F b) as (_ & -> & _).
-      destruct (Nat.eqb x r) eqn:E.
-      + apply Nat.eqb_eq in E. subst. intros Hb. pose proof (Hbs _ Hb). apply B4; auto; try lia.
-        intros Ho. apply S0; auto.
-      + apply Nat.eqb_neq in E. intros Hb. apply B3; auto. apply S0; auto. }
-  assert (C2 : forall x, x < length s2 -> ~ Reach (Bs s2) x r -> P_ro s2 x).
-  { intros x Lx N. unfold P_ro. destruct (F x) as (_ & _ & _ & ->).
-    assert (x <> r) by (intros ->; apply N, Reach_refl).
-    rewrite C; auto; [|lia]. symmetry. apply fresh_ro_frame; auto; try lia.
-    apply Reach_avoid with (r := r); auto.
-    intros y Hy. unfold Bs. destruct (F y) as (-> & _).
-    apply Nat.eqb_neq in Hy. rewrite Hy. auto. }
-  set (s3 := refresh_ro (length s) s2 r).
-  assert (G3 : graph_eq s2 s3) by (apply refresh_ro_graph; auto).
-  assert (K3 : keeps s2 s3) by (apply refresh_ro_keeps_fields; auto).
-  assert (P3 : PInv s3).
-  { split; [|split; [|split]].
-    - eapply graph_eq_allPush; eauto.
-    - eapply graph_eq_ranked; eauto.
-    - apply (graph_eq_subs_ok _ _ G3 S2).
-    - intros x Lx. destruct G3 as (L3 & _). rewrite <- L3 in Lx. fold (P_ro s3 x). unfold s3.
-      destruct (Reach_dec (Bs s2) r R2 x) as [Y|N].
-      + rewrite <- L2. apply refresh_ro_reaches; auto. lia.
-      + apply refresh_ro_keeps; auto. }
-  exists (upd s3 r bump). split; [reflexivity|]. split; [|split; [|split; [|split]]].
-  - eapply PInv_skel; [apply bump_skel|exact P3].
-  - rewrite upd_length. destruct G3 as (<- & _). auto.
-  - intros i. destruct (bump_soft s3 r i) as (_ & [Pc|Ec]).
-    + destruct (K2 i) as (_ & <-). destruct (K3 i) as (_ & <-).
-      revert Pc. unfold P_c. rewrite get_upd.
-      destruct (Nat.eqb i r && Nat.ltb r (length s3)) eqn:E; auto.
-      apply andb_true_iff in E. destruct E as (E & _). apply Nat.eqb_eq in E. subst. cbn. auto.
-    + rewrite Ec. destruct (K2 i) as (_ & <-). destruct (K3 i) as (_ & <-). reflexivity.
-  - intros i. destruct (bump_soft s3 r i) as (-> & _).
-    destruct (K2 i) as (<- & _). destruct (K3 i) as (<- & _). reflexivity.
-  - intros y N. destruct (bump_skel s3 r) as ((_ & Hb) & _). unfold Bs.
-    destruct (Hb y) as (<- & _). destruct G3 as (_ & H3). destruct (H3 y) as (<- & _).
-    destruct (F y) as (-> & _). apply Nat.eqb_neq in N. rewrite N. reflexivity.
+  intros Mu. destruct o; try discriminate; cbn [step fst op_target].
+  - (* a new registry *)
+    unfold new_reg. set (x := mkRS empty_reg empty_caches [] [] [] [] [] fl).
+    destruct (set_bases_fr (s ++ [x]) (length s) bs) as (L & H).
+    split; [rewrite L, app_length; cbn; lia|]. intros i. destruct (H i) as (B & F & S & C).
+    assert (G : rs_caches (get (s ++ [x]) i) = rs_caches (get s i) /\
+                (i <> length s -> get (s ++ [x]) i = get s i)).
+    { rewrite get_app_cases. destruct (Nat.ltb i (length s)) eqn:E; [auto|]. apply Nat.ltb_ge in E.
+      rewrite (get_oob s i E). destruct (Nat.eqb i (length s)) eqn:E2; [|auto].
+      apply Nat.eqb_eq in E2. split; [reflexivity|congruence]. }
+    destruct G as (Gc & Go). split; [rewrite <- Gc; exact C|].
+    intros N. rewrite <- (Go N). auto.
+  - destruct (set_bases_fr s r bs) as (L & H). split; [lia|]. intros i.
+    destruct (H i) as (B & F & S & C). auto.
+  - destruct (mutate_fr s r (fun g => register W g req p n v)) as (L & H). split; [lia|]. intros i.
+    destruct (H i) as (B & F & S & C). auto.
+  - destruct (mutate_fr s r (fun g => unregister W g req p n v)) as (L & H). split; [lia|]. intros i.
+    destruct (H i) as (B & F & S & C). auto.
+  - destruct (mutate_fr s r (fun g => subscribe W g req p v)) as (L & H). split; [lia|]. intros i.
+    destruct (H i) as (B & F & S & C). auto.
+  - destruct (mutate_fr s r (fun g => unsubscribe W g req p v)) as (L & H). split; [lia|]. intros i.
+    destruct (H i) as (B & F & S & C). auto.
+  - destruct (setreg_fr s r (rebuild W (rs_reg (get s r)))) as (L & H). cbv zeta in L, H.
+    split; [lia|]. intros i. destruct (H i) as (B & F & S & C). auto.
 Qed.
 
-Lemma CV_set_bases_push W s r bs : PInv s -> CV W s -> r < length s -> (forall b, In b bs -> b < r) ->
-  CV W (set_bases s r bs).
+Lemma Reach_off (B B' : nat -> list nat) m : (forall y, y <> m -> B y = B' y) ->
+  forall x, Reach B x m -> Reach B' x m.
 Proof.
-  intros P C Lr Hbs. pose proof P as (A & R & S0 & Co).
-  destruct (set_bases_push_frame s r bs) as (s4 & -> & P4 & L4 & Hc & Hs & Hb); auto.
-  { intros x Lx _. apply Co; auto. }
-  apply (CV_after_bump_push W s s4 r); auto; lia.
+  intros E x H. induction H as [x|x b y Hb Hr IH]; [apply Reach_refl|].
+  destruct (Nat.eq_dec x y) as [->|N]; [apply Reach_refl|].
+  eapply Reach_step; [rewrite <- (E x N); eauto|auto].
 Qed.
 
-Lemma CV_new_reg_push W s bs : PInv s -> CV W s -> (forall b, In b bs -> b < length s) ->
-  CV W (new_reg s Push bs).
-Proof.
-  intros P C Hbs. pose proof P as (Al & R & S0 & Co). unfold new_reg.
-  set (s0 := s ++ [mkRS empty_reg empty_caches [] [] [] [] [] Push]).
-  assert (L0 : length s0 = S (length s)) by (unfold s0; rewrite app_length; cbn; lia).
-  assert (G : forall i, get s0 i = if Nat.ltb i (length s) then get s i
-                                   else if Nat.eqb i (length s) then mkRS empty_reg empty_caches [] [] [] [] [] Push
-                                        else dummy_rs) by (intros; apply get_app_cases).
-  assert (G' : forall i, rs_caches (get s0 i) = rs_caches (get s i) /\ rs_reg (get s0 i) = rs_reg (get s i)).
-  { intros i. rewrite G. destruct (Nat.ltb i (length s)) eqn:E; auto. apply Nat.ltb_ge in E.
-    rewrite (get_oob s i E). destruct (Nat.eqb i (length s)); auto. }
-  destruct (set_bases_push_frame s0 (length s) bs) as (s4 & -> & P4 & L4 & Hc & Hs & Hb); auto; try lia.
-  - intros i. rewrite G. destruct (Nat.ltb i (length s)); [apply Al|].
-    destruct (Nat.eqb i (length s)); reflexivity.
-  - apply app_new_ranked; auto.
-  - split.
-    + intros r y. rewrite G, L0. destruct (Nat.ltb r (length s)).
-      * intros Hy. apply S0 in Hy. lia.
-      * destruct (Nat.eqb r (length s)); cbn; tauto.
-    + intros r b. unfold Bs. rewrite (G r). destruct (Nat.ltb r (length s)) eqn:Lr.
-      * intros Hb. apply Nat.ltb_lt in Lr. pose proof (R _ _ Hb). rewrite G.
-        replace (Nat.ltb b (length s)) with true by (symmetry; apply Nat.ltb_lt; lia). apply S0; auto.
-      * destruct (Nat.eqb r (length s)); cbn; tauto.
-  - intros x Lx N. rewrite L0 in Lx. rewrite G.
-    replace (Nat.ltb x (length s)) with true by (symmetry; apply Nat.ltb_lt; lia).
-    unfold s0. rewrite app_new_fresh; auto; try lia. apply Co; lia.
-  - apply (CV_after_bump_push W s s4 (length s)); auto; try lia.
-    + intros i. rewrite Hc. apply G'.
-    + intros j _. rewrite Hs. destruct (G' j) as (_ & ->). reflexivity.
-    + intros y N. rewrite Hb by auto. unfold Bs. rewrite G.
-      destruct (Nat.ltb y (length s)) eqn:E; auto. apply Nat.ltb_ge in E. rewrite (get_oob s y E).
-      apply Nat.eqb_neq in N. rewrite N. reflexivity.
-Qed.
-
-(* ---- verifying flavour: a registry whose record is untouched stays valid as long as a storage
-   only changes together with its generation (the snapshot then no longer matches) *)
-Lemma cv_ver_frame W s s' i :
-  VInv s -> i < length s -> get s' i = get s i ->
-  (forall j, gen_of s j <= gen_of s' j) ->
-  (forall j, gen_of s j = gen_of s' j -> rs_reg (get s' j) = rs_reg (get s j)) ->
-  cv_at W s i -> cv_at W s' i.
-Proof.
-  intros (Al & R & Sn) Li E M Hr C V'.
-  destruct (Sn i Li) as (Ro & Mem & Le & _).
-  unfold valid_snap in V'. rewrite E, (Al i Li) in V'.
-  destruct (gens_sandwich s s' M _ _ Le V') as (Ev & Eq).
-  assert (Er : ro_regs s' i = ro_regs s i).
-  { unfold ro_regs. rewrite E. apply map_ext_in. intros j Hj. rewrite Ro in Hj.
-    destruct Hj as [<-|Hj]; [rewrite E; reflexivity|]. apply Hr. apply Eq. exact Hj. }
-  unfold ents. rewrite E, Er. apply C. unfold valid_snap. rewrite (Al i Li). exact Ev.
-Qed.
-
-Lemma CV_ver_touch W s s' r :
-  VInv s -> CV W s -> length s <= length s' ->
-  (forall i, i <> r -> i < length s -> get s' i = get s i) ->
-  (forall i, i <> r -> length s <= i -> rs_caches (get s' i) = empty_caches) ->
-  rs_caches (get s' r) = empty_caches ->
-  (forall j, gen_of s j <= gen_of s' j) ->
-  (forall j, gen_of s j = gen_of s' j -> rs_reg (get s' j) = rs_reg (get s j)) ->
+(* ---- the general step: something changed at registry m (its storage, its __bases__, or it is
+   new); what the change reaches is cleared (push) or has a stale snapshot (verifying) *)
+Lemma CV_change W s s' m :
+  MInv s -> CV W s -> MInv s' -> length s <= length s' ->
+  (forall i, (rs_caches (get s' i) = empty_caches \/ rs_caches (get s' i) = rs_caches (get s i)) /\
+             (i <> m -> rs_bases (get s' i) = rs_bases (get s i) /\
+                        rs_flavour (get s' i) = rs_flavour (get s i) /\
+                        store (rs_reg (get s' i)) = store (rs_reg (get s i)))) ->
+  (forall i, i <> m -> i < length s -> fl s i = Verifying -> get s' i = get s i) ->
+  gen_le s s' ->
+  (forall i, i < length s' -> fl s' i = Push -> Reach (Bs s') i m -> rs_caches (get s' i) = empty_caches) ->
+  (forall i, i <> m -> i < length s -> fl s i = Verifying -> Reach (Bs s') i m ->
+             gens s' (rs_vro (get s' i)) <> rs_vgen (get s' i)) ->
+  rs_caches (get s' m) = empty_caches ->
   CV W s'.
 Proof.
-  intros V C L Ot Oo Er M Hr i. destruct (Nat.eq_dec i r) as [->|N]; [apply cv_empty; auto|].
+  intros M C M' L Fr Vs GL Cl St Cm i.
+  destruct (Nat.eq_dec i m) as [->|N]; [apply cv_empty; auto|].
+  destruct (Fr i) as (Ca & Ot). destruct (Ot N) as (Eb & Ef & Es).
   destruct (Nat.lt_ge_cases i (length s)) as [Li|Li].
-  - apply (cv_ver_frame W s s' i); auto.
-  - apply cv_empty. auto.
+  2:{ apply cv_empty. destruct Ca as [Ca|Ca]; auto. rewrite Ca. apply get_oob_caches; auto. }
+  pose proof M as (R & Fo & S0 & Cp & Cv). pose proof M' as (R' & Fo' & S0' & Cp' & Cv').
+  assert (Boff : forall y, y <> m -> Bs s' y = Bs s y).
+  { intros y Ny. unfold Bs. destruct (Fr y) as (_ & Oy). apply Oy; auto. }
+  destruct (Reach_dec (Bs s') m R' i) as [Y|Nr].
+  - (* below the change *)
+    destruct (fl s i) eqn:F.
+    + apply cv_empty. apply Cl; auto; [lia|]. unfold fl. rewrite Ef. exact F.
+    + intros V'. exfalso. unfold valid_snap in V'.
+      assert (Fi' : rs_flavour (get s' i) = Verifying) by (rewrite Ef; exact F).
+      rewrite Fi' in V'. exact (St i N Li F Y V').
+  - (* not below the change: nothing it depends on moved *)
+    destruct Ca as [Ca|Ca]; [apply cv_empty; auto|].
+    assert (Ag : agree_from (Bs s') (Bs s) i) by (apply Reach_avoid with (r := m); auto).
+    assert (Fre : fresh_ro s' i = fresh_ro s i) by (apply fresh_ro_frame; auto; lia).
+    assert (Mem : forall j, In j (fresh_ro s i) -> store (rs_reg (get s' j)) = store (rs_reg (get s j))).
+    { intros j Hj. rewrite <- Fre in Hj. apply (fresh_ro_mem s' i j R') in Hj; [|lia].
+      assert (j <> m) by (intros ->; auto). destruct (Fr j) as (_ & Oj). apply Oj; auto. }
+    destruct (fl s i) eqn:F.
+    + assert (F' : fl s' i = Push) by (unfold fl; rewrite Ef; exact F).
+      apply (cv_frame W W s s' i); auto.
+      * intros _. unfold valid_snap. unfold fl in F. rewrite F. exact I.
+      * apply ro_regs_store_ext.
+        -- rewrite Cp' by (auto; lia). rewrite Cp by auto. exact Fre.
+        -- intros j Hj. rewrite Cp in Hj by auto. auto.
+    + pose proof (Vs i N Li F) as Gi. destruct (Cv i Li F) as (Ro & _ & Le & Frs).
+      intros V'. unfold valid_snap in V'. rewrite Gi in V'. unfold fl in F. rewrite F in V'.
+      destruct (gens_sandwich s s' GL _ _ Le V') as (Ev & _).
+      assert (Vi : valid_snap s i) by (unfold valid_snap; rewrite F; exact Ev).
+      revert V'. intros _. unfold ents. rewrite Gi.
+      apply (ents_ext W W (ro_regs s i)); auto.
+      * apply ro_regs_store_ext; [rewrite Gi; reflexivity|].
+        intros j Hj. rewrite (Frs Ev) in Hj. auto.
+      * apply C. exact Vi.
 Qed.
 
-Lemma CV_setreg_ver W s b g' : VInv s -> CV W s -> b < length s ->
-  generation (rs_reg (get s b)) <= generation g' -> generation g' <> generation (rs_reg (get s b)) ->
-  CV W (after_bump (set s b (mkRS g' (rs_caches (get s b)) (rs_bases (get s b)) (rs_ro (get s b))
-                                  (rs_subs (get s b)) (rs_vro (get s b)) (rs_vgen (get s b))
-                                  (rs_flavour (get s b)))) b).
+Lemma bump_target_target W s o m : bump_target W s o = Some m -> op_target s o = m /\ is_mutation o = true.
 Proof.
-  intros V C Lb Mf Eg.
-  set (s1 := set s b _).
-  assert (F1 : rs_flavour (get s1 b) = Verifying).
-  { unfold s1. rewrite get_set_same by auto. cbn. apply V. auto. }
-  assert (L1 : length s1 = length s) by (unfold s1; apply set_length).
-  rewrite after_bump_ver by (auto; lia).
-  destruct (lookup_changed_ver false s1 b F1) as (L' & O' & G'); [lia|].
-  assert (Gb : rs_reg (get s1 b) = g') by (unfold s1; rewrite get_set_same; auto).
-  apply (CV_ver_touch W s _ b); auto; try lia.
-  - intros i N _. rewrite O' by auto. unfold s1. apply get_set_other; auto.
-  - intros i N Li. rewrite O' by auto. unfold s1. rewrite get_set_other by auto. apply get_oob_caches; auto.
-  - rewrite G'. reflexivity.
-  - intros j. unfold gen_of. destruct (Nat.eq_dec j b) as [->|N].
-    + rewrite G'. cbn [rs_reg]. rewrite Gb. apply Mf.
-    + rewrite O' by auto. unfold s1. rewrite get_set_other; auto.
-  - intros j. unfold gen_of. destruct (Nat.eq_dec j b) as [->|N].
-    + rewrite G'. cbn [rs_reg]. rewrite Gb. intros E. congruence.
-    + intros _. rewrite O' by auto. unfold s1. rewrite get_set_other; auto.
+  assert (CG : forall r f, changed_gen s r f = Some m -> r = m).
+  { intros r f H. unfold changed_gen in H. destruct (Nat.eqb _ _) in H; inversion H; auto. }
+  destruct o; cbn [bump_target op_target is_mutation]; intros H; try discriminate;
+    try (inversion H; auto; fail); split; auto; eapply CG; eauto.
 Qed.
 
-Lemma CV_mutate_ver W s b f : VInv s -> CV W s -> b < length s ->
-  (forall g, generation g <= generation (f g)) -> CV W (mutate s b f).
+Lemma flavours_fl s s' : flavours s' = flavours s -> forall i, fl s' i = fl s i.
+Proof. intros E i. rewrite <- !fl_flavours, E. reflexivity. Qed.
+
+(* an operation that bumps the generation of registry m *)
+Lemma CV_bump W call s o m : MInv s -> CV W s -> mwf_op (flavours s) o = true ->
+  bump_target W s o = Some m -> CV W (fst (step W call s o)).
 Proof.
-  intros V C Lb Mf. unfold mutate.
-  destruct (Nat.eqb (generation (f (rs_reg (get s b)))) (generation (rs_reg (get s b)))) eqn:Eg; auto.
-  apply Nat.eqb_neq in Eg. apply CV_setreg_ver; auto.
+  intros M C Wf Bt.
+  destruct (MInv_step W call s o M Wf) as (M' & E' & L').
+  destruct (m_change_shape W call s o m M Wf Bt) as (Lm & GL & GS & Bo & ShP & ShV).
+  destruct (bump_target_target W s o m Bt) as (Tg & Mu).
+  destruct (step_frame W call s o Mu) as (Le & Fr). rewrite Tg in Fr.
+  assert (FA : fls_after (flavours s) o = flavours s).
+  { destruct o; cbn [bump_target] in Bt; try discriminate; reflexivity. }
+  rewrite FA in E'. pose proof (flavours_fl _ _ E') as Ef.
+  set (s' := fst (step W call s o)) in *.
+  assert (Vs : forall i, i <> m -> i < length s -> fl s i = Verifying -> get s' i = get s i).
+  { intros i N Li F. destruct (fl s m) eqn:Fm.
+    - destruct (ShP eq_refl) as (V & _). apply V; auto.
+    - destruct (ShV eq_refl) as (O & _). apply O; auto. }
+  assert (Cl : forall i, i < length s' -> fl s' i = Push -> Reach (Bs s') i m ->
+                         rs_caches (get s' i) = empty_caches).
+  { intros i Li F Rr. pose proof (m_cleared_after_change W call s o m M Wf Bt i Li Rr) as H.
+    fold s' in H. rewrite verify_push in H by apply F. exact H. }
+  apply (CV_change W s s' m); auto.
+  - intros i N Li F Rr. rewrite (Vs i N Li F).
+    pose proof M as (R & _ & _ & _ & Cv).
+    pose proof (m_ver_stale s s' m i R Li (Cv i Li F) (Vs i N Li F) GL GS Bo N Rr) as H.
+    rewrite (Vs i N Li F) in H. exact H.
+  - destruct (fl s m) eqn:Fm.
+    + apply Cl; [lia| rewrite Ef; auto | apply Reach_refl].
+    + destruct (ShV eq_refl) as (_ & Cm). exact Cm.
 Qed.
 
-Lemma CV_set_bases_ver W s r bs : VInv s -> CV W s -> r < length s -> CV W (set_bases s r bs).
+(* a storage operation that changes nothing *)
+Lemma mutate_noop s r f : changed_gen s r f = None -> mutate s r f = s.
 Proof.
-  intros V C Lr. pose proof V as (Al & _).
-  rewrite set_bases_ver_eq by auto.
-  set (s4 := upd (visit_ro (upd s r (setb bs)) r) r bump).
-  assert (L4 : length s4 = length s) by (unfold s4, visit_ro; rewrite !upd_length; auto).
-  assert (O4 : forall i, i <> r -> get s4 i = get s i).
-  { intros i N. unfold s4, visit_ro. rewrite !get_upd_other; auto. }
-  assert (G4 : get s4 r = bump (mkRS (rs_reg (get s r)) (rs_caches (get s r)) bs
-                                     (fresh_ro (upd s r (setb bs)) r) (rs_subs (get s r)) (rs_vro (get s r))
-                                     (rs_vgen (get s r)) (rs_flavour (get s r)))).
-  { unfold s4, visit_ro. rewrite get_upd_same by (rewrite !upd_length; auto).
-    rewrite get_upd_same by (rewrite upd_length; auto). rewrite get_upd_same by auto. reflexivity. }
-  assert (F4 : rs_flavour (get s4 r) = Verifying) by (rewrite G4; cbn; auto).
-  destruct (lookup_changed_ver false s4 r F4) as (L' & O' & G'); [lia|].
-  apply (CV_ver_touch W s _ r); auto; try lia.
-  - intros i N _. rewrite O', O4; auto.
-  - intros i N Li. rewrite O', O4 by auto. apply get_oob_caches; auto.
-  - rewrite G'. reflexivity.
-  - intros j. unfold gen_of. destruct (Nat.eq_dec j r) as [->|N].
-    + rewrite G', G4. cbn. lia.
-    + rewrite O', O4; auto.
-  - intros j. unfold gen_of. destruct (Nat.eq_dec j r) as [->|N].
-    + rewrite G', G4. cbn. lia.
-    + intros _. rewrite O', O4; auto.
+  unfold changed_gen, mutate. destruct (Nat.eqb _ _); [reflexivity|discriminate].
 Qed.
 
-Lemma CV_new_reg_ver W s bs : VInv s -> CV W s -> CV W (new_reg s Verifying bs).
+(* a new registry *)
+Lemma CV_new_reg W (call : value -> list nat -> option nat) s f bs : MInv s -> CV W s -> mwf_op (flavours s) (ONewReg f bs) = true ->
+  CV W (new_reg s f bs).
 Proof.
-  intros V C. unfold new_reg.
-  set (s0 := s ++ [mkRS empty_reg empty_caches [] [] [] [] [] Verifying]).
-  set (n := length s).
-  assert (L0 : length s0 = S n) by (unfold s0, n; rewrite app_length; cbn; lia).
-  assert (G : forall i, get s0 i = if Nat.ltb i n then get s i
-                                   else if Nat.eqb i n
-                                        then mkRS empty_reg empty_caches [] [] [] [] [] Verifying
-                                        else dummy_rs) by (intros; apply get_app_cases).
-  assert (Fn : rs_flavour (get s0 n) = Verifying).
-  { rewrite G, Nat.ltb_irrefl, Nat.eqb_refl. reflexivity. }
-  rewrite set_bases_ver_eq by (auto; lia).
-  set (s4 := upd (visit_ro (upd s0 n (setb bs)) n) n bump).
-  assert (L4 : length s4 = S n) by (unfold s4, visit_ro; rewrite !upd_length; auto).
-  assert (O4 : forall i, i <> n -> get s4 i = get s0 i).
-  { intros i N. unfold s4, visit_ro. rewrite !get_upd_other; auto. }
-  assert (G4 : rs_flavour (get s4 n) = Verifying /\ generation (rs_reg (get s4 n)) = 1).
-  { unfold s4, visit_ro. rewrite get_upd_same by (rewrite !upd_length; lia).
-    rewrite get_upd_same by (rewrite upd_length; lia). rewrite get_upd_same by lia.
-    rewrite G, Nat.ltb_irrefl, Nat.eqb_refl. cbn. auto. }
-  destruct G4 as (F4 & Gen4).
-  destruct (lookup_changed_ver false s4 n F4) as (L' & O' & G'); [lia|].
-  assert (Old : forall i, i < n -> get s0 i = get s i).
-  { intros i Li. rewrite G. replace (Nat.ltb i n) with true; auto. symmetry. apply Nat.ltb_lt; auto. }
-  assert (Dn : gen_of s n = 0) by (unfold gen_of; rewrite get_oob; auto).
-  apply (CV_ver_touch W s _ n); auto; try (fold n; lia).
-  - intros i N Li. rewrite O', O4 by auto. apply Old. auto.
-  - intros i N Li. fold n in Li. rewrite O', O4 by auto. rewrite G.
-    replace (Nat.ltb i n) with false by (symmetry; apply Nat.ltb_ge; auto).
-    apply Nat.eqb_neq in N. rewrite N. reflexivity.
-  - rewrite G'. reflexivity.
-  - intros j. destruct (Nat.eq_dec j n) as [->|N]; [lia|].
-    unfold gen_of. rewrite O', O4 by auto. rewrite G.
-    destruct (Nat.ltb j n) eqn:E; auto. apply Nat.ltb_ge in E. rewrite (get_oob s j) by (fold n; lia).
-    apply Nat.eqb_neq in N. rewrite N. auto.
-  - intros j. destruct (Nat.eq_dec j n) as [->|N].
-    + unfold gen_of at 2. rewrite G'. cbn [rs_reg]. rewrite Gen4, Dn. discriminate.
-    + intros _. rewrite O', O4 by auto. rewrite G.
-      destruct (Nat.ltb j n) eqn:E; auto. apply Nat.ltb_ge in E. rewrite (get_oob s j) by (fold n; lia).
-      apply Nat.eqb_neq in N. rewrite N. auto.
+  intros M C Wf.
+  destruct (MInv_step W call s (ONewReg f bs) M Wf) as (M' & E' & L').
+  destruct (step_frame W call s (ONewReg f bs) eq_refl) as (Le & Fr).
+  cbn [step fst op_target n_after] in *.
+  cbn [mwf_op] in Wf. apply andb_true_iff in Wf. destruct Wf as (Hlt & Pb).
+  rewrite flavours_length in Hlt. pose proof (forallb_ltb _ _ Hlt) as Hbs.
+  set (n := length s) in *. set (s' := new_reg s f bs) in *.
+  pose proof M' as (R' & _).
+  assert (NR : forall i, i < S n -> Reach (Bs s') i n -> i = n).
+  { intros i Li Rr. apply (Reach_le _ R') in Rr. lia. }
+  assert (GLe : gen_le s s').
+  { apply (step_gen W call f s (ONewReg f bs)). cbn [wf_op]. apply andb_true_iff. split; auto.
+    destruct f; reflexivity. }
+  assert (Cn : rs_caches (get s' n) = empty_caches).
+  { destruct (Fr n) as ([Ca|Ca] & _); auto. rewrite Ca. apply get_oob_caches. unfold n. lia. }
+  apply (CV_change W s s' n); auto.
+  - (* verifying registries are untouched *)
+    intros i N Li F. unfold s', new_reg.
+    destruct (app_new_struct s f M) as (R0 & Fo0 & S0 & Cp0 & Cv0 & L0 & G1).
+    set (s0 := s ++ _) in *. fold n.
+    assert (Fn : fl s0 n = f) by (unfold fl, s0, n; rewrite get_app_new; reflexivity).
+    destruct f.
+    + destruct (m_set_bases_push_shape s0 n bs) as (s4 & -> & M4 & L4 & E4 & V4 & B4); auto; try (unfold n; lia).
+      * intros x Lx Fx. apply Cv0; auto. unfold n in Fn. congruence.
+      * intros b Hb. split; [apply Hbs; auto|]. unfold fl. rewrite G1 by (apply Hbs; auto).
+        apply (push_bases_ok_spec s Push bs Pb eq_refl); auto.
+      * assert (F4 : fl s4 n = Push) by (rewrite E4; auto).
+        pose proof (m_after_bump_sv s4 n (proj1 (proj2 M4)) F4) as (_ & K).
+        assert (F0 : fl s0 i = Verifying) by (unfold fl; rewrite G1 by auto; exact F).
+        rewrite K by (rewrite E4; auto). rewrite V4 by auto. apply G1; auto.
+    + destruct (set_bases_ver_shape s0 n bs Fn) as (O & _); [unfold n; lia|].
+      rewrite O by auto. apply G1; auto.
+  - intros i Li F Rr. rewrite L' in Li. rewrite (NR i Li Rr). exact Cn.
+  - intros i N Li F Rr. exfalso. apply N. apply NR; auto.
 Qed.
 
 (* ---- the entry points are transparent functions of the caches *)
@@ -999,67 +972,63 @@ Proof. intros ul ua us c H. apply (queryMultiAdapter_ok ul ua us); auto. Qed.
 Lemma tr_subscribers call os p : transparent_f (fun _ _ us c => subscribers us call c os p).
 Proof. intros ul ua us c H. apply (subscribers_ok ul ua us); auto. Qed.
 
-(* ---- every well-formed operation keeps CacheValid (static world) *)
-Lemma CV_step W call fl s o : Inv fl s -> CV W s -> wf_op fl (length s) o = true ->
+(* ---- every well-formed operation keeps CacheValid (static world, mixed flavours) *)
+Lemma CV_step W call s o : MInv s -> CV W s -> mwf_op (flavours s) o = true ->
   CV W (fst (step W call s o)).
 Proof.
   intros I C Wf.
-  destruct o; cbn [step wf_op fst] in *; try rewrite fst_let; try discriminate; auto;
-    try (apply Nat.ltb_lt in Wf;
-         first [ apply (CV_with_lookup W fl); auto;
-                 first [apply tr_lookup | apply tr_lookup1 | apply tr_lookupAll | apply tr_names
-                       | apply tr_subscriptions | apply tr_adapter_hook | apply tr_queryMultiAdapter
-                       | apply tr_subscribers]
-               | destruct fl; [apply CV_mutate_push; auto
-                              | apply CV_mutate_ver; auto; intros;
-                                first [apply register_gen | apply unregister_gen | apply subscribe_gen
-                                      | apply unsubscribe_gen]] ]; fail).
-  - apply andb_true_iff in Wf. destruct Wf as (Fl & Hb). pose proof (forallb_ltb _ _ Hb).
-    destruct fl, fl0; try discriminate; [apply CV_new_reg_push | apply CV_new_reg_ver]; auto.
-  - apply andb_true_iff in Wf. destruct Wf as (Lr & Hb). apply Nat.ltb_lt in Lr.
-    pose proof (forallb_ltb _ _ Hb).
-    destruct fl; [apply CV_set_bases_push | apply CV_set_bases_ver]; auto.
-  - (* rebuild(): the storage is rebuilt (generation strictly larger), then changed() *)
-    apply Nat.ltb_lt in Wf. pose proof (rebuild_gen W (rs_reg (get s r))).
-    destruct fl; [apply CV_setreg_push | apply CV_setreg_ver]; auto; lia.
+  destruct (bump_target W s o) as [m|] eqn:Bt; [apply (CV_bump W call s o m); auto|].
+  destruct o; cbn [bump_target] in Bt; try discriminate;
+    try (cbn [step fst]; rewrite (mutate_noop _ _ _ Bt); exact C);
+    try (cbn [step fst]; exact C).
+  1: apply (CV_new_reg W call); auto.
+  all: cbn [step mwf_op fst] in *; rewrite fst_let; rewrite flavours_length in Wf; apply Nat.ltb_lt in Wf;
+    apply CV_with_lookup; auto;
+    first [apply tr_lookup | apply tr_lookup1 | apply tr_lookupAll | apply tr_names
+          | apply tr_subscriptions | apply tr_adapter_hook | apply tr_queryMultiAdapter
+          | apply tr_subscribers].
 Qed.
 
 (* ---- re-basing a specification: Specification.changed reaching the lookup objects *)
-Lemma Inv_lookup_changed fl b s r : Inv fl s -> r < length s -> Inv fl (lookup_changed b s r).
+Lemma MInv_lookup_changed b s r : MInv s -> r < length s ->
+  MInv (lookup_changed b s r) /\ flavours (lookup_changed b s r) = flavours s.
 Proof.
-  destruct fl; intros I Lr.
-  - eapply PInv_skel; [|exact I]. apply lookup_changed_push_skel. apply I.
-  - apply VInv_lookup_changed; auto.
+  intros M Lr. destruct (fl s r) eqn:F.
+  - pose proof (lookup_changed_push_sv b s r F) as K. split.
+    + apply (MInv_sv s); auto. apply regs_eq_gen_le. apply lookup_changed_regs.
+    + apply flavours_same; [apply (sv_length _ _ K)|apply (sv_fl _ _ K)].
+  - pose proof M as (R & Fo & S0 & Cp & Cv).
+    destruct (m_resnap b s s r) as (M' & L' & E'); auto. { congruence. }
+    split; auto. apply flavours_same; auto.
 Qed.
 
-Lemma lookup_changed_facts fl b s r : Inv fl s -> r < length s ->
+Lemma lookup_changed_facts b s r : MInv s -> r < length s ->
   length (lookup_changed b s r) = length s /\
   (forall j, rs_reg (get (lookup_changed b s r) j) = rs_reg (get s j)) /\
   (forall i, i <> r -> get (lookup_changed b s r) i = get s i) /\
   rs_caches (get (lookup_changed b s r) r) = empty_caches.
 Proof.
-  destruct fl; intros I Lr.
-  - destruct I as (Al & _). rewrite lookup_changed_push by apply Al.
+  intros I Lr. destruct (fl s r) eqn:F.
+  - rewrite lookup_changed_push by apply F.
     split; [apply upd_length|]. split; [|split].
     + intros j. rewrite get_upd. destruct (Nat.eqb j r && Nat.ltb r (length s)) eqn:E; auto.
       apply andb_true_iff in E. destruct E as (E & _). apply Nat.eqb_eq in E. subst. reflexivity.
     + intros i N. apply get_upd_other; auto.
     + rewrite get_upd_same; auto.
-  - destruct I as (Al & _). destruct (lookup_changed_ver b s r (Al r Lr) Lr) as (L & O & G).
+  - destruct (lookup_changed_ver b s r F Lr) as (L & O & G).
     split; auto. split; [|split]; auto.
     + intros j. destruct (Nat.eq_dec j r) as [->|N]; [rewrite G; reflexivity|rewrite O; auto].
     + rewrite G. reflexivity.
 Qed.
 
 Section SpecChanged.
-  Variable fl : flavour.
   Variable T : nat -> bool.      (* which lookup objects are reached *)
   Variable s : sys.
 
   Definition sc_step (acc : sys) (r : nat) : sys := if T r then lookup_changed false acc r else acc.
 
   Definition SCJ (acc : sys) (done : list nat) : Prop :=
-    Inv fl acc /\ length acc = length s /\
+    MInv acc /\ length acc = length s /\ flavours acc = flavours s /\
     (forall j, rs_reg (get acc j) = rs_reg (get s j)) /\
     (forall i, In i done -> T i = true -> rs_caches (get acc i) = empty_caches) /\
     (forall i, ~ In i done \/ T i = false -> get acc i = get s i).
@@ -1071,11 +1040,12 @@ Section SpecChanged.
     - rewrite app_nil_r. exact J.
     - replace (done ++ k :: l) with ((done ++ [k]) ++ l) by (rewrite <- app_assoc; reflexivity).
       apply IH; [intros; apply Hl; right; auto|].
-      destruct J as (I & L & Rg & Cl & Un). unfold sc_step.
+      destruct J as (I & L & Fl & Rg & Cl & Un). unfold sc_step.
       assert (Lk : k < length acc) by (rewrite L; apply Hl; left; auto).
       destruct (T k) eqn:Tk.
-      + destruct (lookup_changed_facts fl false acc k I Lk) as (L' & Rg' & O' & E').
-        split; [apply Inv_lookup_changed; auto|]. split; [congruence|]. split; [|split].
+      + destruct (lookup_changed_facts false acc k I Lk) as (L' & Rg' & O' & E').
+        destruct (MInv_lookup_changed false acc k I Lk) as (I' & Fl').
+        split; [auto|]. split; [congruence|]. split; [congruence|]. split; [|split].
         * intros j. rewrite Rg'. apply Rg.
         * intros i Hi Ti. destruct (Nat.eq_dec i k) as [->|N]; auto.
           rewrite O' by auto. apply in_app_iff in Hi. destruct Hi as [Hi|[Hi|[]]]; [auto|congruence].
@@ -1083,35 +1053,35 @@ Section SpecChanged.
           { intros ->. destruct Hi as [Hi|Hi]; [apply Hi; apply in_app_iff; right; left; auto|congruence]. }
           rewrite O' by auto. apply Un. destruct Hi as [Hi|Hi]; auto. left. intros H. apply Hi.
           apply in_app_iff; auto.
-      + split; auto. split; auto. split; auto. split.
+      + split; auto. split; auto. split; auto. split; auto. split.
         * intros i Hi Ti. apply in_app_iff in Hi. destruct Hi as [Hi|[Hi|[]]]; [auto|congruence].
         * intros i Hi. apply Un. destruct Hi as [Hi|Hi]; auto. left. intros H. apply Hi.
           apply in_app_iff; auto.
   Qed.
 End SpecChanged.
 
-Lemma spec_changed_facts fl g x s : Inv fl s ->
+Lemma spec_changed_facts g x s : MInv s ->
   let s' := spec_changed g x s in
-  Inv fl s' /\ length s' = length s /\
+  MInv s' /\ length s' = length s /\ flavours s' = flavours s /\
   (forall j, rs_reg (get s' j) = rs_reg (get s j)) /\
   (forall i, i < length s -> touched g x (rs_caches (get s i)) = true -> rs_caches (get s' i) = empty_caches) /\
   (forall i, length s <= i \/ touched g x (rs_caches (get s i)) = false -> get s' i = get s i).
 Proof.
   intros I. cbv zeta.
-  pose proof (sc_fold fl (fun r => touched g x (rs_caches (get s r))) s (seq 0 (length s)) s []) as H.
-  cbn [app] in H. destruct H as (I' & L' & Rg & Cl & Un).
+  pose proof (sc_fold (fun r => touched g x (rs_caches (get s r))) s (seq 0 (length s)) s []) as H.
+  cbn [app] in H. destruct H as (I' & L' & Fl' & Rg & Cl & Un).
   - intros k Hk. apply in_seq in Hk. lia.
-  - split; auto. split; auto. split; auto. split; [intros i []|auto].
+  - split; auto. split; auto. split; auto. split; auto. split; [intros i []|auto].
   - unfold spec_changed. unfold sc_step in *.
-    split; auto. split; auto. split; auto. split.
+    split; auto. split; auto. split; auto. split; auto. split.
     + intros i Li Ti. apply Cl; auto. apply in_seq. lia.
     + intros i [Li|Ti]; apply Un; auto. left. intros Hi. apply in_seq in Hi. lia.
 Qed.
 
-Lemma CV_spec_changed fl g ifs x bs s : Inv fl s -> CV (world_of g ifs) s ->
+Lemma CV_spec_changed g ifs x bs s : MInv s -> CV (world_of g ifs) s ->
   CV (world_of (set_spec_bases g x bs) ifs) (spec_changed g x s).
 Proof.
-  intros I C. destruct (spec_changed_facts fl g x s I) as (I' & L' & Rg & Cl & Un).
+  intros I C. destruct (spec_changed_facts g x s I) as (I' & L' & _ & Rg & Cl & Un).
   intros i. destruct (Nat.lt_ge_cases i (length s)) as [Li|Li].
   - destruct (touched g x (rs_caches (get s i))) eqn:Ti.
     + apply cv_empty. apply Cl; auto.
@@ -1126,11 +1096,11 @@ Proof.
 Qed.
 
 (* ---- the combined invariant of Model/CacheSys.v states *)
-Definition CInv (fl : flavour) (st : cstate) : Prop :=
-  Inv fl (cs_sys st) /\ CV (world_of (cs_g st) (cs_if st)) (cs_sys st).
+Definition CInv (st : cstate) : Prop :=
+  MInv (cs_sys st) /\ CV (world_of (cs_g st) (cs_if st)) (cs_sys st).
 
-Lemma CInv_init fl g ifs : CInv fl (mkCS g ifs []).
-Proof. split; [apply Inv_nil|apply CV_nil]. Qed.
+Lemma CInv_init g ifs : CInv (mkCS g ifs []).
+Proof. split; [apply MInv_nil|apply CV_nil]. Qed.
 
 Lemma cstep_sys_CReg call st o :
   cs_sys (fst (cstep call st (CReg o))) = fst (step (world_of (cs_g st) (cs_if st)) call (cs_sys st) o) /\
@@ -1140,26 +1110,26 @@ Proof.
   cbn [cstep]. destruct (step (world_of (cs_g st) (cs_if st)) call (cs_sys st) o); cbn. auto.
 Qed.
 
-Lemma CInv_step call fl st o : CInv fl st -> cwf_op fl (length (cs_sys st)) o = true ->
-  CInv fl (fst (cstep call st o)) /\
-  length (cs_sys (fst (cstep call st o))) = cn_after (length (cs_sys st)) o.
+Lemma CInv_step call st o : CInv st -> cmwf_op (flavours (cs_sys st)) o = true ->
+  CInv (fst (cstep call st o)) /\
+  flavours (cs_sys (fst (cstep call st o))) = cfls_after (flavours (cs_sys st)) o.
 Proof.
   intros (I & C) Wf. destruct o as [o|x bs].
   - destruct (cstep_sys_CReg call st o) as (Es & Eg & Ei & _). unfold CInv. rewrite Es, Eg, Ei.
-    cbn [cwf_op cn_after] in *.
-    destruct (Inv_step (world_of (cs_g st) (cs_if st)) call fl _ o I Wf) as (I' & L').
-    split; auto. split; auto. apply (CV_step _ call fl); auto.
-  - cbn [cstep fst cs_sys cs_g cs_if cn_after]. unfold CInv. cbn [cs_sys cs_g cs_if].
-    destruct (spec_changed_facts fl (cs_g st) x (cs_sys st) I) as (I' & L' & _).
-    split; auto. split; auto. apply (CV_spec_changed fl); auto.
+    cbn [cmwf_op cfls_after] in *.
+    destruct (MInv_step (world_of (cs_g st) (cs_if st)) call _ o I Wf) as (I' & F' & _).
+    split; auto. split; auto. apply (CV_step _ call); auto.
+  - cbn [cstep fst cs_sys cs_g cs_if cfls_after]. unfold CInv. cbn [cs_sys cs_g cs_if].
+    destruct (spec_changed_facts (cs_g st) x (cs_sys st) I) as (I' & _ & F' & _).
+    split; auto. split; auto. apply CV_spec_changed; auto.
 Qed.
 
-Lemma CInv_final call fl : forall ops st, CInv fl st -> cwf_hist fl (length (cs_sys st)) ops = true ->
-  CInv fl (cfinal call st ops).
+Lemma CInv_final call : forall ops st, CInv st -> cmwf_hist (flavours (cs_sys st)) ops = true ->
+  CInv (cfinal call st ops).
 Proof.
   induction ops as [|o ops IH]; intros st J Wf; cbn [cfinal fold_left]; auto.
-  cbn [cwf_hist] in Wf. apply andb_true_iff in Wf. destruct Wf as (Wo & Wf).
-  destruct (CInv_step call fl st o J Wo) as (J' & L'). apply IH; auto. rewrite L'. auto.
+  cbn [cmwf_hist] in Wf. apply andb_true_iff in Wf. destruct Wf as (Wo & Wf).
+  destruct (CInv_step call st o J Wo) as (J' & F'). apply IH; auto. rewrite F'. auto.
 Qed.
 
 (* ================================================================== Part 5: the theorems *)
@@ -1168,12 +1138,13 @@ Lemma pure_answer_ext W call ch ch' q : (forall r, ch r = ch' r) -> pure_answer 
 Proof. intros H. destruct q; cbn [pure_answer]; try rewrite H; reflexivity. Qed.
 
 (* in a good state every lookup-family operation answers its pure answer over the current chain *)
-Lemma step_answer_chain W call fl s q : Inv fl s -> CV W s -> wf_op fl (length s) q = true ->
+Lemma step_answer_chain W call s q : MInv s -> CV W s -> mwf_op (flavours s) q = true ->
   is_lookup q = true -> snd (step W call s q) = pure_answer W call (chain_regs s) q.
 Proof.
   intros I C Wf Q.
-  destruct q; try discriminate; cbn [step pure_answer wf_op] in *; apply Nat.ltb_lt in Wf;
-    rewrite snd_let; rewrite (with_lookup_answer W fl) by
+  destruct q; try discriminate; cbn [step pure_answer mwf_op] in *; rewrite flavours_length in Wf;
+    apply Nat.ltb_lt in Wf;
+    rewrite snd_let; rewrite (with_lookup_answer W) by
       (auto; first [apply tr_lookup | apply tr_lookup1 | apply tr_lookupAll | apply tr_names
                    | apply tr_subscriptions | apply tr_adapter_hook | apply tr_queryMultiAdapter
                    | apply tr_subscribers]);
@@ -1191,34 +1162,43 @@ Qed.
 Lemma drop_length s : length (drop_caches s) = length s.
 Proof. apply map_length. Qed.
 
+Lemma drop_CV W s : CV W (drop_caches s).
+Proof. intros i. apply cv_empty. rewrite get_drop. reflexivity. Qed.
+
 Lemma drop_skel s : skel_eq s (drop_caches s).
 Proof.
   split; [split; [symmetry; apply drop_length|]|]; intros i; rewrite get_drop; cbn; auto.
 Qed.
 
-Lemma drop_CV W s : CV W (drop_caches s).
-Proof. intros i. apply cv_empty. rewrite get_drop. reflexivity. Qed.
-
-Lemma drop_Inv fl s : Inv fl s -> Inv fl (drop_caches s).
+Lemma drop_flavours s : flavours (drop_caches s) = flavours s.
 Proof.
-  destruct fl; intros I.
-  - eapply PInv_skel; [apply drop_skel|exact I].
-  - destruct I as (Al & R & Sn).
-    assert (F : forall i, rs_reg (get (drop_caches s) i) = rs_reg (get s i) /\
-                          rs_bases (get (drop_caches s) i) = rs_bases (get s i) /\
-                          rs_ro (get (drop_caches s) i) = rs_ro (get s i) /\
-                          rs_vro (get (drop_caches s) i) = rs_vro (get s i) /\
-                          rs_vgen (get (drop_caches s) i) = rs_vgen (get s i) /\
-                          rs_flavour (get (drop_caches s) i) = rs_flavour (get s i))
-      by (intros i; rewrite get_drop; cbn; repeat split; reflexivity).
-    split; [|split].
-    + intros i Li. rewrite drop_length in Li. destruct (F i) as (_ & _ & _ & _ & _ & ->). auto.
-    + intros y b. unfold Bs. destruct (F y) as (_ & -> & _). apply R.
-    + intros x Lx. rewrite drop_length in Lx. apply (snap_frame s _ x); auto; try apply F.
-      * rewrite drop_length. lia.
-      * intros i. unfold gen_of. destruct (F i) as (-> & _). auto.
-      * intros i. unfold Bs. destruct (F i) as (_ & -> & _). congruence.
-      * unfold Bs. destruct (F x) as (_ & -> & _). auto.
+  apply flavours_same; [apply drop_length|]. intros i. unfold fl. rewrite get_drop. reflexivity.
+Qed.
+
+Lemma drop_MInv s : MInv s -> MInv (drop_caches s).
+Proof.
+  intros (R & Fo & S0 & Cp & Cv).
+  assert (F : forall i, rs_reg (get (drop_caches s) i) = rs_reg (get s i) /\
+                        rs_bases (get (drop_caches s) i) = rs_bases (get s i) /\
+                        rs_ro (get (drop_caches s) i) = rs_ro (get s i) /\
+                        rs_vro (get (drop_caches s) i) = rs_vro (get s i) /\
+                        rs_vgen (get (drop_caches s) i) = rs_vgen (get s i) /\
+                        rs_flavour (get (drop_caches s) i) = rs_flavour (get s i))
+    by (intros i; rewrite get_drop; cbn; repeat split; reflexivity).
+  pose proof (drop_skel s) as (G & Ro).
+  assert (Ef : forall i, fl (drop_caches s) i = fl s i) by (intros i; unfold fl; apply F).
+  split; [|split; [|split; [|split]]].
+  - eapply graph_eq_ranked; eauto.
+  - eapply graph_eq_flav_ok; eauto.
+  - eapply graph_eq_msubs_ok; eauto.
+  - intros r Lr Fr. rewrite drop_length in Lr. rewrite Ef in Fr. rewrite <- Ro.
+    rewrite <- (graph_eq_fresh _ _ r G). apply Cp; auto.
+  - intros x Lx Fx. rewrite drop_length in Lx. rewrite Ef in Fx.
+    apply (snap_frame s _ x); auto; try apply F.
+    + rewrite drop_length. lia.
+    + intros i. unfold gen_of. destruct (F i) as (-> & _). auto.
+    + intros i. unfold Bs. destruct (F i) as (_ & -> & _). congruence.
+    + unfold Bs. destruct (F x) as (_ & -> & _). auto.
 Qed.
 
 Lemma chain_regs_ext s s' r : length s = length s' ->
@@ -1237,13 +1217,13 @@ Proof.
 Qed.
 
 (* state form, one step: in a good state the caches do not influence any lookup-family answer *)
-Lemma transparent_state W call fl s q : Inv fl s -> CV W s -> wf_op fl (length s) q = true ->
+Lemma transparent_state W call s q : MInv s -> CV W s -> mwf_op (flavours s) q = true ->
   is_lookup q = true -> snd (step W call s q) = snd (step W call (drop_caches s) q).
 Proof.
-  intros I C Wf Q. rewrite (step_answer_chain W call fl s q); auto.
-  rewrite (step_answer_chain W call fl (drop_caches s) q); auto using drop_Inv, drop_CV.
+  intros I C Wf Q. rewrite (step_answer_chain W call s q); auto.
+  rewrite (step_answer_chain W call (drop_caches s) q); auto using drop_MInv, drop_CV.
   - apply pure_answer_ext. intros r. symmetry. apply drop_chain.
-  - rewrite drop_length. auto.
+  - rewrite drop_flavours. auto.
 Qed.
 
 (* ---- the part of a system that mutations read and write (everything but the lookup objects'
@@ -1433,37 +1413,42 @@ Proof.
   - intros i. unfold Bs. apply H.
 Qed.
 
-(* ---- erased histories *)
-Lemma cwf_erase fl : forall ops n, cwf_hist fl n ops = true -> cwf_hist fl n (erase_lookups ops) = true.
+Lemma core_flavours a b : core_eq a b -> flavours a = flavours b.
 Proof.
-  induction ops as [|o ops IH]; intros n H; auto.
-  cbn [cwf_hist] in H. apply andb_true_iff in H. destruct H as (Ho & H).
+  intros (L & H). apply flavours_same; auto. intros i. unfold fl. destruct (H i) as (_ & _ & _ & E). auto.
+Qed.
+
+(* ---- erased histories *)
+Lemma cmwf_erase : forall ops fls, cmwf_hist fls ops = true -> cmwf_hist fls (erase_lookups ops) = true.
+Proof.
+  induction ops as [|o ops IH]; intros fls H; auto.
+  cbn [cmwf_hist] in H. apply andb_true_iff in H. destruct H as (Ho & H).
   unfold erase_lookups. cbn [filter]. fold (erase_lookups ops).
   destruct (cis_mutation o) eqn:M.
-  - cbn [cwf_hist]. rewrite Ho. cbn. apply IH; auto.
-  - replace (cn_after n o) with n in H; [apply IH; auto|].
+  - cbn [cmwf_hist]. rewrite Ho. cbn. apply IH; auto.
+  - replace (cfls_after fls o) with fls in H; [apply IH; auto|].
     destruct o as [o|]; [|discriminate]. destruct o; try discriminate; reflexivity.
 Qed.
 
 Definition same_world (a b : cstate) : Prop := cs_g a = cs_g b /\ cs_if a = cs_if b.
 
-Lemma erase_sim call fl : forall ops st1 st2,
-  CInv fl st1 -> CInv fl st2 -> same_world st1 st2 -> core_eq (cs_sys st1) (cs_sys st2) ->
-  cwf_hist fl (length (cs_sys st1)) ops = true ->
+Lemma erase_sim call : forall ops st1 st2,
+  CInv st1 -> CInv st2 -> same_world st1 st2 -> core_eq (cs_sys st1) (cs_sys st2) ->
+  cmwf_hist (flavours (cs_sys st1)) ops = true ->
   let f1 := cfinal call st1 ops in
   let f2 := cfinal call st2 (erase_lookups ops) in
-  CInv fl f1 /\ CInv fl f2 /\ same_world f1 f2 /\ core_eq (cs_sys f1) (cs_sys f2).
+  CInv f1 /\ CInv f2 /\ same_world f1 f2 /\ core_eq (cs_sys f1) (cs_sys f2).
 Proof.
   induction ops as [|o ops IH]; intros st1 st2 J1 J2 Sw E Wf; cbn zeta.
   - cbn. auto.
-  - cbn [cwf_hist] in Wf. apply andb_true_iff in Wf. destruct Wf as (Wo & Wf).
-    destruct (CInv_step call fl st1 o J1 Wo) as (J1' & L1').
+  - cbn [cmwf_hist] in Wf. apply andb_true_iff in Wf. destruct Wf as (Wo & Wf).
+    destruct (CInv_step call st1 o J1 Wo) as (J1' & L1').
     unfold erase_lookups. cbn [filter cfinal fold_left]. fold (erase_lookups ops).
     destruct Sw as (Sg & Si).
     destruct (cis_mutation o) eqn:M.
     + cbn [cfinal fold_left].
-      assert (Wo2 : cwf_op fl (length (cs_sys st2)) o = true) by (destruct E as (<- & _); auto).
-      destruct (CInv_step call fl st2 o J2 Wo2) as (J2' & L2').
+      assert (Wo2 : cmwf_op (flavours (cs_sys st2)) o = true) by (rewrite <- (core_flavours _ _ E); auto).
+      destruct (CInv_step call st2 o J2 Wo2) as (J2' & L2').
       apply IH; auto.
       * destruct o as [o|x bs].
         -- destruct (cstep_sys_CReg call st1 o) as (_ & G1 & I1 & _).
@@ -1506,17 +1491,17 @@ Proof.
   cbn [crun]. destruct (cstep call (cfinal call st pre) o). reflexivity.
 Qed.
 
-Lemma cwf_snoc call fl : forall pre st o, CInv fl st ->
-  cwf_hist fl (length (cs_sys st)) (pre ++ [o]) = true ->
-  cwf_hist fl (length (cs_sys st)) pre = true /\
-  cwf_op fl (length (cs_sys (cfinal call st pre))) o = true.
+Lemma cmwf_snoc call : forall pre st o, CInv st ->
+  cmwf_hist (flavours (cs_sys st)) (pre ++ [o]) = true ->
+  cmwf_hist (flavours (cs_sys st)) pre = true /\
+  cmwf_op (flavours (cs_sys (cfinal call st pre))) o = true.
 Proof.
   induction pre as [|p pre IH]; intros st o J H.
-  - cbn [app cwf_hist cfinal fold_left] in *. apply andb_true_iff in H. destruct H. auto.
-  - cbn [app cwf_hist] in H. apply andb_true_iff in H. destruct H as (Hp & H).
-    destruct (CInv_step call fl st p J Hp) as (J' & L').
+  - cbn [app cmwf_hist cfinal fold_left] in *. apply andb_true_iff in H. destruct H. auto.
+  - cbn [app cmwf_hist] in H. apply andb_true_iff in H. destruct H as (Hp & H).
+    destruct (CInv_step call st p J Hp) as (J' & L').
     rewrite <- L' in H. destruct (IH _ o J' H) as (H1 & H2).
-    cbn [cwf_hist cfinal fold_left]. rewrite Hp. cbn [andb]. split; [rewrite <- L'; exact H1|exact H2].
+    cbn [cmwf_hist cfinal fold_left]. rewrite Hp. cbn [andb]. split; [rewrite <- L'; exact H1|exact H2].
 Qed.
 
 Lemma crun_fast_eq call : forall ops st, crun_fast call st ops = crun call st ops.
@@ -1528,109 +1513,115 @@ Proof.
   - f_equal. apply (IH (mkCS (set_spec_bases (cs_g st) x bs) (cs_if st) (spec_changed (cs_g st) x (cs_sys st)))).
 Qed.
 
+
+(* homogeneous histories are mixed histories (cf. C06_homogeneous_histories_are_mixed) *)
+Lemma cwf_cmwf fl : forall ops n, cwf_hist fl n ops = true -> cmwf_hist (repeat fl n) ops = true.
+Proof.
+  induction ops as [|o ops IH]; intros n H; cbn [cwf_hist cmwf_hist] in *; auto.
+  apply andb_true_iff in H. destruct H as (Ho & H). destruct o as [o|x bs]; cbn [cwf_op cmwf_op cfls_after cn_after] in *.
+  - destruct (wf_op_mwf fl n o Ho) as (-> & ->). cbn [andb]. apply IH; auto.
+  - apply IH; auto.
+Qed.
+
 (* ---- C05, state form: at every reachable state, no lookup-family answer depends on the caches *)
-Theorem cache_transparent_state call fl g ifs ops q :
-  cwf_hist fl 0 (ops ++ [CReg q]) = true -> is_lookup q = true ->
+Theorem cache_transparent_state_mixed call g ifs ops q :
+  cmwf_hist [] (ops ++ [CReg q]) = true -> is_lookup q = true ->
   let st := cfinal call (mkCS g ifs []) ops in
   snd (cstep call st (CReg q)) =
   snd (cstep call (mkCS (cs_g st) (cs_if st) (drop_caches (cs_sys st))) (CReg q)).
 Proof.
   intros Wf Q st.
-  destruct (cwf_snoc call fl ops (mkCS g ifs []) (CReg q) (CInv_init fl g ifs) Wf) as (W1 & W2).
-  destruct (CInv_final call fl ops _ (CInv_init fl g ifs) W1) as (I & C). fold st in I, C, W2.
+  destruct (cmwf_snoc call ops (mkCS g ifs []) (CReg q) (CInv_init g ifs) Wf) as (W1 & W2).
+  destruct (CInv_final call ops _ (CInv_init g ifs) W1) as (I & C). fold st in I, C, W2.
   destruct (cstep_sys_CReg call st q) as (_ & _ & _ & ->).
   destruct (cstep_sys_CReg call (mkCS (cs_g st) (cs_if st) (drop_caches (cs_sys st))) q) as (_ & _ & _ & ->).
-  cbn [cs_g cs_if cs_sys]. apply (transparent_state _ call fl); auto.
+  cbn [cs_g cs_if cs_sys]. apply (transparent_state _ call); auto.
 Qed.
 
 (* ---- C05: every lookup-family answer is the uncached answer over the current chain *)
-Theorem answers_are_uncached call fl g ifs ops q :
-  cwf_hist fl 0 (ops ++ [CReg q]) = true -> is_lookup q = true ->
+Theorem answers_are_uncached_mixed call g ifs ops q :
+  cmwf_hist [] (ops ++ [CReg q]) = true -> is_lookup q = true ->
   let st := cfinal call (mkCS g ifs []) ops in
   snd (cstep call st (CReg q)) =
   pure_answer (world_of (cs_g st) (cs_if st)) call (chain_regs (cs_sys st)) q.
 Proof.
   intros Wf Q st.
-  destruct (cwf_snoc call fl ops (mkCS g ifs []) (CReg q) (CInv_init fl g ifs) Wf) as (W1 & W2).
-  destruct (CInv_final call fl ops _ (CInv_init fl g ifs) W1) as (I & C). fold st in I, C, W2.
+  destruct (cmwf_snoc call ops (mkCS g ifs []) (CReg q) (CInv_init g ifs) Wf) as (W1 & W2).
+  destruct (CInv_final call ops _ (CInv_init g ifs) W1) as (I & C). fold st in I, C, W2.
   destruct (cstep_sys_CReg call st q) as (_ & _ & _ & ->).
-  apply (step_answer_chain _ call fl); auto.
+  apply (step_answer_chain _ call); auto.
 Qed.
 
 (* ---- C05, history form: the answer of a lookup inside a history = its answer after the same
    mutations with every earlier query erased *)
-Theorem cache_transparent call fl g ifs pre q post :
-  cwf_hist fl 0 (pre ++ [CReg q]) = true -> is_lookup q = true ->
+Theorem cache_transparent_mixed call g ifs pre q post :
+  cmwf_hist [] (pre ++ [CReg q]) = true -> is_lookup q = true ->
   nth (length pre) (crun call (mkCS g ifs []) (pre ++ CReg q :: post)) [] =
   nth (length (erase_lookups pre)) (crun call (mkCS g ifs []) (erase_lookups pre ++ [CReg q])) [].
 Proof.
   intros Wf Q. rewrite !crun_nth.
   set (init := mkCS g ifs []).
-  destruct (cwf_snoc call fl pre init (CReg q) (CInv_init fl g ifs) Wf) as (W1 & W2).
-  destruct (erase_sim call fl pre init init) as ((I1 & C1) & (I2 & C2) & (Sg & Si) & E);
+  destruct (cmwf_snoc call pre init (CReg q) (CInv_init g ifs) Wf) as (W1 & W2).
+  destruct (erase_sim call pre init init) as ((I1 & C1) & (I2 & C2) & (Sg & Si) & E);
     try apply CInv_init; try apply core_refl; auto; [split; auto|].
   set (f1 := cfinal call init pre) in *. set (f2 := cfinal call init (erase_lookups pre)) in *.
   destruct (cstep_sys_CReg call f1 q) as (_ & _ & _ & ->).
   destruct (cstep_sys_CReg call f2 q) as (_ & _ & _ & ->).
-  cbn [cwf_op] in W2.
-  rewrite (step_answer_chain _ call fl (cs_sys f1) q); auto.
-  rewrite (step_answer_chain _ call fl (cs_sys f2) q); auto.
+  cbn [cmwf_op] in W2.
+  rewrite (step_answer_chain _ call (cs_sys f1) q); auto.
+  rewrite (step_answer_chain _ call (cs_sys f2) q); auto.
   - rewrite Sg, Si. apply pure_answer_ext. intros r. apply core_chain; auto.
-  - destruct E as (<- & _). auto.
+  - rewrite <- (core_flavours _ _ E). auto.
 Qed.
 
 (* ---- the static-world instance (Model/RegSys.v alone, any world W) *)
-Lemma static_sim W call fl : forall ops s1 s2,
-  Inv fl s1 -> CV W s1 -> Inv fl s2 -> CV W s2 -> core_eq s1 s2 -> wf_hist fl (length s1) ops = true ->
+Lemma static_sim W call : forall ops s1 s2,
+  MInv s1 -> CV W s1 -> MInv s2 -> CV W s2 -> core_eq s1 s2 -> mwf_hist (flavours s1) ops = true ->
   let f1 := final W call s1 ops in
   let f2 := final W call s2 (filter is_mutation ops) in
-  Inv fl f1 /\ CV W f1 /\ Inv fl f2 /\ CV W f2 /\ core_eq f1 f2 /\
-  length f1 = fold_left n_after ops (length s1).
+  MInv f1 /\ CV W f1 /\ MInv f2 /\ CV W f2 /\ core_eq f1 f2.
 Proof.
   induction ops as [|o ops IH]; intros s1 s2 I1 C1 I2 C2 E Wf; cbn zeta.
   - cbn. auto 10.
-  - cbn [wf_hist] in Wf. apply andb_true_iff in Wf. destruct Wf as (Wo & Wf).
-    destruct (Inv_step W call fl s1 o I1 Wo) as (I1' & L1').
-    pose proof (CV_step W call fl s1 o I1 C1 Wo) as C1'.
+  - cbn [mwf_hist] in Wf. apply andb_true_iff in Wf. destruct Wf as (Wo & Wf).
+    destruct (MInv_step W call s1 o I1 Wo) as (I1' & F1' & _).
+    pose proof (CV_step W call s1 o I1 C1 Wo) as C1'.
     cbn [filter final fold_left]. destruct (is_mutation o) eqn:M.
-    + assert (Wo2 : wf_op fl (length s2) o = true) by (destruct E as (<- & _); auto).
-      destruct (Inv_step W call fl s2 o I2 Wo2) as (I2' & L2').
-      pose proof (CV_step W call fl s2 o I2 C2 Wo2) as C2'.
-      cbn [final fold_left]. rewrite <- L1'. apply IH; auto.
+    + assert (Wo2 : mwf_op (flavours s2) o = true) by (rewrite <- (core_flavours _ _ E); auto).
+      destruct (MInv_step W call s2 o I2 Wo2) as (I2' & _).
+      pose proof (CV_step W call s2 o I2 C2 Wo2) as C2'.
+      cbn [final fold_left]. apply IH; auto.
       * apply step_mutation_cong; auto.
-      * rewrite L1'. auto.
-    + rewrite <- L1'. apply IH; auto.
+      * rewrite F1'. auto.
+    + apply IH; auto.
       * eapply core_trans; [apply core_sym, step_query_core; auto|exact E].
-      * rewrite L1'. auto.
+      * rewrite F1'. auto.
 Qed.
 
-Lemma wf_snoc fl : forall pre n o, wf_hist fl n (pre ++ [o]) = true ->
-  wf_hist fl n pre = true /\ wf_op fl (fold_left n_after pre n) o = true.
+Lemma mwf_prefix : forall pre fls o, mwf_hist fls (pre ++ [o]) = true -> mwf_hist fls pre = true.
 Proof.
-  induction pre as [|p pre IH]; intros n o H.
-  - cbn in *. apply andb_true_iff in H. destruct H. auto.
-  - cbn [app wf_hist fold_left] in *. apply andb_true_iff in H. destruct H as (Hp & H).
-    destruct (IH _ _ H) as (H1 & H2). rewrite Hp. auto.
+  induction pre as [|p pre IH]; intros fls o H; [reflexivity|].
+  cbn [app mwf_hist] in *. apply andb_true_iff in H. destruct H as (Hp & H). rewrite Hp. cbn [andb]. eauto.
 Qed.
 
-Theorem cache_transparent_static W call fl pre q :
-  wf_hist fl 0 (pre ++ [q]) = true -> is_lookup q = true ->
+Theorem cache_transparent_static_mixed W call pre q :
+  mwf_hist [] (pre ++ [q]) = true -> is_lookup q = true ->
   snd (step W call (final W call [] pre) q) =
   snd (step W call (final W call [] (filter is_mutation pre)) q).
 Proof.
-  intros Wf Q. destruct (wf_snoc fl pre 0 q Wf) as (W1 & W2).
-  destruct (static_sim W call fl pre [] []) as (I1 & C1 & I2 & C2 & E & L);
-    auto using Inv_nil, CV_nil, core_refl.
-  cbn [length] in L. rewrite <- L in W2.
-  rewrite (step_answer_chain W call fl _ q); auto.
-  rewrite (step_answer_chain W call fl (final W call [] (filter is_mutation pre)) q); auto.
+  intros Wf Q. destruct (mwf_hist_app W call pre [] q MInv_nil Wf) as (_ & W2).
+  assert (W1 : mwf_hist (flavours []) pre = true) by (apply (mwf_prefix pre [] q Wf)).
+  destruct (static_sim W call pre [] []) as (I1 & C1 & I2 & C2 & E);
+    try apply MInv_nil; try apply CV_nil; try apply core_refl; auto.
+  rewrite (step_answer_chain W call _ q); auto.
+  rewrite (step_answer_chain W call (final W call [] (filter is_mutation pre)) q); auto.
   - apply pure_answer_ext. intros r. apply core_chain; auto.
-  - destruct E as (<- & _). auto.
+  - rewrite <- (core_flavours _ _ E). auto.
 Qed.
 
 (* ---- what re-basing a specification does to the lookup objects (the dependence set) *)
-Theorem spec_rebase_frame call fl g ifs ops x bs :
-  cwf_hist fl 0 ops = true ->
+Theorem spec_rebase_frame_mixed call g ifs ops x bs :
+  cmwf_hist [] ops = true ->
   let st := cfinal call (mkCS g ifs []) ops in
   let s := cs_sys st in
   let s' := cs_sys (fst (cstep call st (CSetSpecBases x bs))) in
@@ -1644,9 +1635,51 @@ Theorem spec_rebase_frame call fl g ifs ops x bs :
                        w_sro (world_of (cs_g st) (cs_if st)) y).
 Proof.
   intros Wf st s s'.
-  destruct (CInv_final call fl ops _ (CInv_init fl g ifs) Wf) as (I & C). fold st in I, C.
-  destruct (spec_changed_facts fl (cs_g st) x s I) as (_ & L' & _ & Cl & Un).
+  destruct (CInv_final call ops _ (CInv_init g ifs) Wf) as (I & C). fold st in I, C.
+  destruct (spec_changed_facts (cs_g st) x s I) as (_ & L' & _ & _ & Cl & Un).
   split; [exact L'|]. split; [exact Cl|].
   intros i Ti. split; [apply Un; auto|]. intros y Hy.
   apply untouched_sro with (c := rs_caches (get s i)); auto.
 Qed.
+
+(* ---- the single-flavour statements are special cases *)
+Theorem cache_transparent_state call fl g ifs ops q :
+  cwf_hist fl 0 (ops ++ [CReg q]) = true -> is_lookup q = true ->
+  let st := cfinal call (mkCS g ifs []) ops in
+  snd (cstep call st (CReg q)) =
+  snd (cstep call (mkCS (cs_g st) (cs_if st) (drop_caches (cs_sys st))) (CReg q)).
+Proof. intros Wf. apply cache_transparent_state_mixed. apply (cwf_cmwf fl _ 0 Wf). Qed.
+
+Theorem answers_are_uncached call fl g ifs ops q :
+  cwf_hist fl 0 (ops ++ [CReg q]) = true -> is_lookup q = true ->
+  let st := cfinal call (mkCS g ifs []) ops in
+  snd (cstep call st (CReg q)) =
+  pure_answer (world_of (cs_g st) (cs_if st)) call (chain_regs (cs_sys st)) q.
+Proof. intros Wf. apply answers_are_uncached_mixed. apply (cwf_cmwf fl _ 0 Wf). Qed.
+
+Theorem cache_transparent call fl g ifs pre q post :
+  cwf_hist fl 0 (pre ++ [CReg q]) = true -> is_lookup q = true ->
+  nth (length pre) (crun call (mkCS g ifs []) (pre ++ CReg q :: post)) [] =
+  nth (length (erase_lookups pre)) (crun call (mkCS g ifs []) (erase_lookups pre ++ [CReg q])) [].
+Proof. intros Wf. apply cache_transparent_mixed. apply (cwf_cmwf fl _ 0 Wf). Qed.
+
+Theorem cache_transparent_static W call fl pre q :
+  wf_hist fl 0 (pre ++ [q]) = true -> is_lookup q = true ->
+  snd (step W call (final W call [] pre) q) =
+  snd (step W call (final W call [] (filter is_mutation pre)) q).
+Proof. intros Wf. apply cache_transparent_static_mixed. apply (wf_hist_mwf fl _ 0 Wf). Qed.
+
+Theorem spec_rebase_frame call fl g ifs ops x bs :
+  cwf_hist fl 0 ops = true ->
+  let st := cfinal call (mkCS g ifs []) ops in
+  let s := cs_sys st in
+  let s' := cs_sys (fst (cstep call st (CSetSpecBases x bs))) in
+  length s' = length s /\
+  (forall i, i < length s -> touched (cs_g st) x (rs_caches (get s i)) = true ->
+             rs_caches (get s' i) = empty_caches) /\
+  (forall i, touched (cs_g st) x (rs_caches (get s i)) = false ->
+             get s' i = get s i /\
+             forall y, In y (c_required (rs_caches (get s i))) ->
+                       w_sro (world_of (set_spec_bases (cs_g st) x bs) (cs_if st)) y =
+                       w_sro (world_of (cs_g st) (cs_if st)) y).
+Proof. intros Wf. apply spec_rebase_frame_mixed. apply (cwf_cmwf fl _ 0 Wf). Qed.
